@@ -84,7 +84,7 @@ func (w *World) packetPathFuncs() map[*ssa.Function]bool {
 	for f := range up {
 		roots = append(roots, f)
 	}
-	for f := range w.CG.Reach(roots, nil) {
+	for f := range w.CG.ReachCtx(roots, w.TS, nil) {
 		if w.P.IsLib(f) {
 			out[f] = true
 		}
